@@ -59,6 +59,8 @@ def gen_system(rng, size=None):
     for i in range(rng.randint(0, 3)):
         name = rng.choice(['s', 'comp', 'T', 'S_']) + str(i)
         doms = [rng.choice(alld) for _ in range(rng.randint(1, 4))]
+        if doms in S.strands.values():
+            continue                      # strands are singletons by sequence: one name per sequence
         S.strands[name] = doms
         txt = '%s %s %s %s' % (rng.choice(['strand', 'sup-sequence']), name, rng.choice('=:'), ' '.join(doms))
         if rng.random() < 0.3:
@@ -106,9 +108,11 @@ def gen_system(rng, size=None):
             # strand notation: declare the strands first
             snames = []
             for j, st in enumerate(gen_split(names)):
-                sn = '%s_s%d' % (name, j)
-                S.strands[sn] = st
-                S.stmts.append(('comp', 'strand %s = %s' % (sn, ' '.join(st))))
+                sn = next((k for k, v in S.strands.items() if v == st), None)
+                if sn is None:
+                    sn = '%s_s%d' % (name, j)
+                    S.strands[sn] = st
+                    S.stmts.append(('comp', 'strand %s = %s' % (sn, ' '.join(st))))
                 snames.append(sn)
             db = s if rng.random() < 0.5 else ' '.join(s)
             if rng.random() < 0.5:
@@ -124,7 +128,7 @@ def gen_system(rng, size=None):
             break
         mem = rng.sample(cnames, rng.randint(1, min(3, len(cnames))))
         name = rng.choice(mem)
-        if name in S.macrostates:
+        if name in S.macrostates or any(sorted(v) == sorted(mem) for v in S.macrostates.values()):
             continue
         S.macrostates[name] = mem
         S.stmts.append(('rest', '%s %s = [%s]' % (rng.choice(['state', 'macrostate']), name, ', '.join(mem))))
